@@ -124,6 +124,15 @@ func (i *Interpreter) evaluateAsyncExpr(expr AsyncExpr, env *Environment) (inter
 
 	// Execute the async block in a separate goroutine
 	go func() {
+		// A Go panic on this goroutine would end the whole process: no
+		// handler's recover can see it. Reject the future instead, as the
+		// VM does for its async blocks.
+		defer func() {
+			if r := recover(); r != nil {
+				future.Reject(fmt.Errorf("async panic: %v", r))
+			}
+		}()
+
 		// Check for cancellation before starting
 		select {
 		case <-future.Cancelled():
